@@ -6198,6 +6198,28 @@ void SoPlexBase<R>::factorizeColumnRational(SolRational& sol,
       loadMatrix = true;
    }
 
+   // a factorization loaded through computeBasisInverseRational() is ordered as getBasisInd() says, while the right-hand
+   // sides below are set up for the order "basic rows first, then basic columns"; reuse it only if the two orders agree
+   if(!loadMatrix)
+   {
+      int k = 0;
+
+      for(int i = 0; i < basisStatusRows.size() && !loadMatrix; i++)
+      {
+         if(basisStatusRows[i] == SPxSolverBase<R>::BASIC && k < matrixdim && _rationalLUSolverBind[k++] != -1 - i)
+            loadMatrix = true;
+      }
+
+      for(int i = 0; i < basisStatusCols.size() && !loadMatrix; i++)
+      {
+         if(basisStatusCols[i] == SPxSolverBase<R>::BASIC && k < matrixdim && _rationalLUSolverBind[k++] != i)
+            loadMatrix = true;
+      }
+
+      if(loadMatrix)
+         _rationalLUSolver.clear();
+   }
+
    _workSol._primal.reDim(matrixdim);
    _workSol._slacks.reDim(matrixdim);
    _workSol._dual.reDim(matrixdim);
